@@ -303,23 +303,24 @@ def zipArrays (n : Nat) : List Arr → List Arr → List Arr
 
 def scalarAt (o : MolO) (i : Nat) : Int := o.scalars.getD i 0
 
-/-- `Structure.concatenate(s1, s2)` for two different objects: all atoms and bonds evolved into a new
-object, coordinates (and, repaired, charges) stacked; name "unknown" (code 0), empty attributes. -/
+/-- `Structure.concatenate(s1, s2)` (the two may be the same object): all atoms and bonds evolved into a
+new object — bonds re-targeted source by source —, coordinates (and, repaired, charges) stacked; name
+"unknown" (code 0), empty attributes. -/
 def concat (fl : Flags) (n : Nat) (cls : Nat) (s1 s2 : MolO) : MolO :=
-  let srcAtoms := s1.atoms ++ s2.atoms
-  let srcBonds := s1.bonds ++ s2.bonds
   let nAtomsId := n + 2
   let nAtoms := nAtomsId + 1
-  let atoms := copyAtoms fl n nAtoms srcAtoms
-  let nBondsId := nAtoms + atomsSize srcAtoms
+  let atoms1 := copyAtoms fl n nAtoms s1.atoms
+  let atoms2 := copyAtoms fl n (nAtoms + atomsSize s1.atoms) s2.atoms
+  let nBondsId := nAtoms + atomsSize s1.atoms + atomsSize s2.atoms
   let nBonds := nBondsId + 1
-  let nArr := nBonds + bondsSize srcBonds
+  let nArr := nBonds + bondsSize s1.bonds + bondsSize s2.bonds
   let arrays := zipArrays nArr s1.arrays s2.arrays
   { id := n, cls := cls,
     scalars := [0, scalarAt s1 1 + scalarAt s2 1, scalarAt s1 2 + scalarAt s2 2 - 1],
     attrib := { id := n + 1, ents := .nil },
-    atomsId := nAtomsId, atoms := atoms, bondsId := nBondsId,
-    bonds := copyBonds fl n (srcAtoms.map (·.id)) (atoms.map (·.id)) nBonds srcBonds,
+    atomsId := nAtomsId, atoms := atoms1 ++ atoms2, bondsId := nBondsId,
+    bonds := copyBonds fl n (s1.atoms.map (·.id)) (atoms1.map (·.id)) nBonds s1.bonds ++
+             copyBonds fl n (s2.atoms.map (·.id)) (atoms2.map (·.id)) (nBonds + bondsSize s1.bonds) s2.bonds,
     arrays := if fl.zeroCharges then zeroSlot arrays else arrays }
 
 def touches (x : Nat) (b : BondO) : Bool := b.a1 == x || b.a2 == x
